@@ -266,6 +266,31 @@ func init() {
 							}
 						}
 					}
+					if phi, isPhi := f.Cond.(*ssa.Phi); isPhi {
+						// `dup := sna32LTE(…) || q.hasChunk(tsn); if dup {…}`: a flag made of the same tests
+						okPhi := true
+						for _, lf := range phiLeaves(phi) {
+							switch x := lf.Val.(type) {
+							case *ssa.Const:
+							case *ssa.Call:
+								sc := x.Call.StaticCallee()
+								if sc == nil {
+									okPhi = false
+									break
+								}
+								switch c.P.FuncName(sc) {
+								case "sna32GT", "sna32LTE", "receivePayloadQueue.hasChunk":
+								default:
+									okPhi = false
+								}
+							default:
+								okPhi = false
+							}
+						}
+						if okPhi {
+							continue
+						}
+					}
 					extra = append(extra, shortValue(c.P, f.Cond))
 				}
 				c.Check(len(extra) == 0, "tail-no-extra-guard", c.Pos(a.Instr), "no additional condition can skip the tailTSN update", "additional guard on the tailTSN update: "+strings.Join(extra, ","))
